@@ -222,3 +222,41 @@ def replay_container(prop, path):
     print("replay of %s: the recorded violation does not reproduce on the current tree (%d events validated)"
           % (path, v["events"]))
     return 0
+
+
+KIMPL_XS = {"dir": {0}, "temp": {0, 1}, "mux": {"L1", "L2"}}
+KIMPL_MUTANTS = {"dir": ("reappend", "nmd_leak", "addnode_reset"), "temp": ("weight_after", "reappend"),
+                 "mux": ("weight_after", "reappend")}
+
+
+def explore_kimpl(res, kind, tier):
+    """the implementation-shaped model of the directed / temporal / multiplex class (spec/impl/KImpl.tla)
+    refines HGX and keeps IndexInv; its historic-fault variants must be rejected by TLC"""
+    def consts(bug, n, maxid, xs):
+        return {"Kind": kind, "Node": set(range(1, n + 1)), "MaxW": 2, "Weighted": True, "MaxId": maxid, "Bug": bug,
+                "MKeys": {"a"}, "MVals": {"1"}, "XS": xs}
+    if tier == "quick":
+        runs = [(2, 3, KIMPL_XS[kind] if kind == "dir" else set(list(sorted(KIMPL_XS[kind]))[:1]))]
+    else:
+        runs = [(2, 3, KIMPL_XS[kind]), (3, 3, KIMPL_XS["dir"] if kind == "dir" else set(list(sorted(KIMPL_XS[kind]))[:1]))]
+    for (n, maxid, xs) in runs:
+        cfg = tlc.cfg_text(consts("none", n, maxid, xs), init="Init", next_="INext", invariants=["IndexInv"],
+                           constraints=["IBound"])
+        r = tlc.run("KImpl", cfg, workers=16, timeout=3000, heap="8g")
+        if not tlc.ok_exploration(r):
+            raise tlc.TLCError("KImpl(%s) does not refine HGX / breaks IndexInv:\n%s" % (kind, tlc.error_excerpt(r["out"])))
+        s = tlc.stats(r["out"])
+        res.cov(states=s["distinct"], transitions=s["generated"])
+        res.coverage.setdefault("explorations", []).append(
+            {"module": "KImpl", "kind": kind, "n": n, "max_id": maxid, "states": s["distinct"], "transitions": s["generated"],
+             "wall_s": round(r["wall"], 1), "checked": ["IndexInv", "refines HGX (Assert in INext)"]})
+    rejected = []
+    muts = KIMPL_MUTANTS[kind] if tier == "thorough" else KIMPL_MUTANTS[kind][:1]
+    for bug in muts:
+        cfg = tlc.cfg_text(consts(bug, 2, 3, KIMPL_XS[kind]), init="Init", next_="INext", invariants=["IndexInv"],
+                           constraints=["IBound"])
+        r = tlc.run("KImpl", cfg, workers=16, timeout=900, heap="8g")
+        if tlc.ok_exploration(r) or not ("is violated" in r["out"] or "Assert" in r["out"]):
+            raise tlc.TLCError("spec mutant Bug=%s of KImpl(%s) was NOT rejected by TLC" % (bug, kind))
+        rejected.append(bug)
+    res.cov(spec_mutants_rejected=rejected)
